@@ -82,7 +82,7 @@ def run_model(name, cfg, maxfaults, cmds, known, workdir, workers=8, timeout=360
     """returns (TlcResult, maximal scripts as lists of step dicts)"""
     mod, cfgp = write_mc(name, cfg, maxfaults, cmds, known, os.path.join(workdir, "mc"), emit=emit)
     r = tlc.run(mod, cfgp, os.path.join(workdir, "tlc-" + name), workers=workers, timeout=timeout, xmx=xmx,
-                extra=["-coverage", "1"] if not emit else [])
+                extra=[])
     paths = []
     if emit:
         for tag, v in tlc.tagged(r.text, ("EDGE",)):
